@@ -20,7 +20,7 @@ types:
     - id: compression_type
       type: u4
       enum: compression
-      doc: The compression algorithm used. 0 means no compression, 1 means Snappy, 2 means Gzip.
+      doc: The compression algorithm used. 0 means no compression, 1 means Gzip, 2 means Snappy, 3 means LZW.
   record:
     doc: |
       recordio record is an "infinite" stream of magic number separated and length encoded byte arrays.
@@ -41,10 +41,13 @@ types:
         size: len_payload
     instances:
       len_payload:
-        value: uncompressed_payload_len.value ^ compressed_payload_len.value
-        doc: The size is either the compressed or uncompressed length.
+        value: 'record_nil == 1 ? 0 : (compressed_payload_len.value != 0 ? compressed_payload_len.value : uncompressed_payload_len.value)'
+        doc: |
+          The number of stored bytes: nothing for nil records (their header still carries lengths), the compressed
+          length in compressed files, otherwise the uncompressed length (the compressed length is 0 in uncompressed files).
 enums:
   compression:
     0: none
-    1: snappy
-    2: gzip
+    1: gzip
+    2: snappy
+    3: lzw
